@@ -1,17 +1,20 @@
-\* design-level check of the whole alphabet (namespace + message commands) on a small instance
+\* every transition of the namespace instance (quick)
 CONSTANTS
-  Names <- NamesAC
+  Names <- NamesABC
   Conns = 1
   CatIds = {1}
   MaxMsgs = 1
   MaxUid = 1
   MaxCreates = 2
-  Family = "all"
+  Family = "ns"
   Level = 0
-INIT Init
-NEXT Next
+  Mode = "bfs"
+  SimDepth = 0
+  Chains = 0
+INIT GenInitAll
+NEXT GenNext
 CONSTRAINT Bounded
-VIEW View
-INVARIANTS TypeOK UidsAscending UidValidityDistinct
+INVARIANTS Emit TypeOK UidsAscending UidValidityDistinct
 PROPERTIES UidsNeverReused UidValidityFresh AppendUidExact CopyUidExact StoreExact RemovalExact QueriesPure
+VIEW GenView
 CHECK_DEADLOCK FALSE
